@@ -47,11 +47,16 @@ def dictOfList {β : Type} (l : List (String × β)) : List (String × β) :=
 
 /-! ### from_meshio -/
 
-/-- the cell fields `MeshFields.__init__` builds from `cell_data`: the i-th distinct type gets the
-    i-th array of every name -/
+/-- the cell fields `MeshFields.__init__` builds from `cell_data` (`zip(mesh.cell_types, cell_data[name])`):
+    the i-th distinct type gets the i-th array of every name (`i` counted from `k`) -/
+def mioCellFieldsFrom (cellData : List (String × List NdArr)) : Nat → List String → List CellField
+  | _, [] => []
+  | i, ct :: rest =>
+    cellData.filterMap (fun na => na.2[i]?.map fun a => CellField.mk na.1 ct a) ++
+      mioCellFieldsFrom cellData (i + 1) rest
+
 def mioCellFields (types : List String) (cellData : List (String × List NdArr)) : List CellField :=
-  types.zipIdx.flatMap fun (ct, i) =>
-    cellData.filterMap fun (name, arrs) => arrs[i]?.map fun a => ⟨name, ct, a⟩
+  mioCellFieldsFrom cellData 0 types
 
 /-- `from_meshio`; `none` = an exception is raised (unknown type, length checks of `MeshFields`) -/
 def fromMeshio (m : MioMesh) : Option MeshFields :=
@@ -65,10 +70,15 @@ def fromMeshio (m : MioMesh) : Option MeshFields :=
     else if cfs.any (fun cf => cf.values.shape.head? != some (mesh.cellsOf cf.ctype).length) then none
     else some ⟨mesh, pfs, cfs⟩
 
+def hasDup : List String → Bool
+  | [] => false
+  | a :: r => r.contains a || hasDup r
+
+/-- the fieldcompare cell types of the blocks, in block order (unknown meshio names map to "") -/
+def MioMesh.blockTypes (m : MioMesh) : List String := m.blocks.map fun b => (fromMioType b.1).getD ""
+
 /-- class predicate of finding F9: some cell type occurs in more than one block -/
-def MioMesh.repeatedType (m : MioMesh) : Bool :=
-  let ts := m.blocks.map (·.1)
-  ts.zipIdx.any fun (t, i) => (ts.take i).contains t
+def MioMesh.repeatedType (m : MioMesh) : Bool := hasDup m.blockTypes
 
 /-- well-formed meshio mesh (what meshio's own constructor guarantees) -/
 def MioMesh.wf (m : MioMesh) : Bool :=
